@@ -12,8 +12,8 @@ import (
 )
 
 const (
-	ninf = math.MinInt64
-	pinf = math.MaxInt64
+	ninf     = math.MinInt64
+	pinf     = math.MaxInt64
 	maxSpans = 4
 )
 
@@ -48,12 +48,14 @@ func axList(bits uint32) []string {
 	return out
 }
 
-func botVal() aval              { return aval{bot: true} }
-func topVal() aval              { return aval{sp: []span{{ninf, pinf}}} }
-func constVal(k int64) aval     { return aval{sp: []span{{k, k}}} }
+func botVal() aval               { return aval{bot: true} }
+func topVal() aval               { return aval{sp: []span{{ninf, pinf}}} }
+func constVal(k int64) aval      { return aval{sp: []span{{k, k}}} }
 func rangeVal(lo, hi int64) aval { return aval{sp: []span{{lo, hi}}} }
 
-func (a aval) isTop() bool { return !a.bot && len(a.sp) == 1 && a.sp[0].lo == ninf && a.sp[0].hi == pinf }
+func (a aval) isTop() bool {
+	return !a.bot && len(a.sp) == 1 && a.sp[0].lo == ninf && a.sp[0].hi == pinf
+}
 func (a aval) lo() int64 {
 	if a.bot {
 		return pinf
@@ -415,10 +417,10 @@ type fval struct {
 	ax     uint32
 }
 
-func ftop() fval                  { return fval{lo: math.Inf(-1), hi: math.Inf(1)} }
-func fbot() fval                  { return fval{bot: true} }
-func fconst(x float64) fval       { return fval{lo: x, hi: x} }
-func (f fval) isTop() bool        { return !f.bot && math.IsInf(f.lo, -1) && math.IsInf(f.hi, 1) }
+func ftop() fval            { return fval{lo: math.Inf(-1), hi: math.Inf(1)} }
+func fbot() fval            { return fval{bot: true} }
+func fconst(x float64) fval { return fval{lo: x, hi: x} }
+func (f fval) isTop() bool  { return !f.bot && math.IsInf(f.lo, -1) && math.IsInf(f.hi, 1) }
 func joinF(a, b fval) fval {
 	if a.bot {
 		return b
